@@ -361,7 +361,7 @@ def dominant_system(rng, n):
 def generate(tier, seed):
     rng = np.random.default_rng(seed + 5)
     recs = []
-    nrand = 1500 if tier == 'thorough' else 150
+    nrand = 6000 if tier == 'thorough' else 150
     for k in range(nrand):
         n = int(rng.integers(1, 9))
         A = rand_matrix(rng, n)
@@ -442,8 +442,12 @@ def _check_harness(ctx):
 
 
 def run(ctx):
-    r = ctx.model_must_hold('MC_C05', 'MC_C05.cfg', timeout=900)
-    old = ctx.tlc_model('MC_C05', 'MC_C05_old.cfg', timeout=900, label='regression model: pre-fix enforce formula')
+    r = ctx.model_must_hold('MC_C05', 'MC_C05.cfg', timeout=900, env={'C05_N4': '0'})
+    if ctx.tier == 'thorough':
+        ctx.model_must_hold('MC_C05', 'MC_C05.cfg', timeout=3000, env={'C05_N4': '1'},
+                            label='4 x 4 systems with at most 4 stored entries, every ordered constrained set')
+    old = ctx.tlc_model('MC_C05', 'MC_C05_old.cfg', timeout=900, label='regression model: pre-fix enforce formula',
+                        env={'C05_N4': '0'})
     ctx.notes['old_enforce_formula_refuted_by_tlc'] = bool(old['violated'])
     out = os.path.join(ctx.scratch, 'c05_universe.json')
     ctx.tlc_model('MC_C05_export', 'MC_C05_export.cfg', timeout=600, env={'OUT_FILE': out, 'C05_LEVEL': ctx.tier}, workers=1,
